@@ -11,6 +11,7 @@ CONSTANTS GridLen = 8
           Counts1 = {1, 2, 3}
           Counts2 = {1, 2}
           CaseSamples = 3
+          CaseCounts1 = {1, 3}
 INVARIANTS C37_Level1 C37_Level2 C37_NonEmpty C37_IncreasePreserved
            C38_TotalsConserved C38_Ordered C38_WithinSpan L2ExactWhenOnePart L2ChunksOrdered StepsAgreeWithAlgo
 PROPERTY AlwaysProgress
